@@ -240,6 +240,46 @@ MUTANTS = [
     ("c14-decr-unguarded", "C14", "C14.SIGN-invalid-children", N,
      "            if !edge_child.is_valid() {\n                expert.decr_invalid_children();\n            }",
      "            expert.decr_invalid_children();"),
+    # ---- C15
+    ("c15-fold-left-adds", "C15", "C15.DTAB-unordered-fold", "incremental-map/src/lib.rs",
+     "                        DiffElement::Left(value) => fold.remove(acc, key, value),", "                        DiffElement::Left(value) => fold.add(acc, key, value),"),
+    ("c15-unequal-old-value", "C15", "C15.DTAB-filter-mapi", "incremental-map/src/lib.rs",
+     "                            DiffElement::Unequal(_, newval) => {", "                            DiffElement::Unequal(newval, _) => {"),
+    ("c15-ordmap-merge-no-remove", "C15", "C15.DTAB-merge", "incremental-map/src/im_rc.rs",
+     "                        None => acc_output.remove(key),\n                        Some(r) => acc_output.insert(key.clone(), r),\n                    };\n                    acc_output\n                },\n            );\n            (output, did_change)\n        });\n        #[cfg(debug_assertions)]\n        i.set_graphviz_user_data(Box::new(format!(\n            \"incr_merge -> {}\",\n            std::any::type_name::<OrdMap<K, R>>()",
+     "                        None => None,\n                        Some(r) => acc_output.insert(key.clone(), r),\n                    };\n                    acc_output\n                },\n            );\n            (output, did_change)\n        });\n        #[cfg(debug_assertions)]\n        i.set_graphviz_user_data(Box::new(format!(\n            \"incr_merge -> {}\",\n            std::any::type_name::<OrdMap<K, R>>()"),
+    ("c15-no-old-input-store", "C15", "C15.PDOM-pair", "incremental-map/src/lib.rs",
+     "            *oi = Some(a.clone());\n", "            let _ = &oi;\n"),
+    ("c15-revert-inverted", "C15", "C15.DTAB-unordered-fold", "incremental-map/src/lib.rs",
+     "                    return (init.clone(), !old_in.is_empty());", "                    return (init.clone(), old_in.is_empty());"),
+    ("c15-default-update-order", "C15", "C15.DTAB-unordered-fold", "incremental-map/src/lib.rs",
+     "        acc = self.remove(acc, key, old);\n        self.add(acc, key, new)", "        acc = self.remove(acc, key, new);\n        self.add(acc, key, old)"),
+    ("c15-partition-update-keeps-other", "C15", "C15.DTAB-partition", "incremental-map/src/im_rc.rs",
+     "                left.insert(key.clone(), val);\n                right.remove(key);", "                left.insert(key.clone(), val);"),
+    ("c15-right-none-keeps", "C15", "C15.DTAB-filter-mapi", "incremental-map/src/lib.rs",
+     "                            DiffElement::Right(newval) => {\n                                if let Some(v2) = f(key, newval) {\n                                    out.insert(key.clone(), v2);\n                                } else {\n                                    out.remove(key);\n                                }",
+     "                            DiffElement::Right(newval) => {\n                                if let Some(v2) = f(key, newval) {\n                                    out.insert(key.clone(), v2);\n                                }"),
+    ("c15-merge-left-uses-old-right", "C15", "C15.DTAB-merge", "incremental-map/src/btree_map.rs",
+     "                        Left((_, left_diff)) => (left_diff.new_data(), new_right_map.get(key)),", "                        Left((_, left_diff)) => (left_diff.new_data(), None),"),
+    # ---- C16
+    ("c16-invalidate-before-remove", "C16", "C16.DTAB-rewire", "incremental-map/src/btree_map.rs",
+     "                        let node = node.upgrade();\n                        result_weak.remove_dependency(dep);\n                        let mut acc = acc.borrow_mut();\n                        acc.remove(key);\n                        // Invalidate does have to happen after remove_dependency.\n                        if let Some(node) = node {\n                            node.invalidate();\n                        }",
+     "                        let node = node.upgrade();\n                        if let Some(node) = node {\n                            node.invalidate();\n                        }\n                        result_weak.remove_dependency(dep);\n                        let mut acc = acc.borrow_mut();\n                        acc.remove(key);"),
+    ("c16-left-keeps-output-key", "C16", "C16.DTAB-rewire", "incremental-map/src/im_rc.rs",
+     "                        let mut acc = acc.borrow_mut();\n                        acc.remove(key);\n", "                        let _acc = acc.borrow_mut();\n"),
+    ("c16-no-prev-map-store", "C16", "C16.DTAB-rewire", "incremental-map/src/btree_map.rs",
+     "            *prev_map_mut = map.clone();\n", "            let _ = &prev_map_mut;\n"),
+    ("c16-inner-none-ignored", "C16", "C16.DTAB-rewire", "incremental-map/src/btree_map.rs",
+     "                None => {\n                    acc.remove(key);\n                }", "                None => {}"),
+    # ---- C17
+    ("c17-always-full-pass", "C17", "C17.GUARD-full", "incremental-map/src/lib.rs",
+     "                        out\n                    });\n                (old_out, did_change)",
+     "                        out\n                    });\n                let _recount = input.filter_map_collect(&mut f);\n                (old_out, did_change)"),
+    ("c17-no-old-input-store", "C17", "C17.PDOM-pair", "incremental-map/src/lib.rs",
+     "            *oi = Some(a.clone());\n", "            let _ = &oi;\n"),
+    ("c17-unequal-stales-all", "C17", "C17.DTAB-unequal", "incremental-map/src/btree_map.rs",
+     "                        if let Some(node) = node.upgrade() {\n                            node.make_stale();\n                        }\n                        nodes",
+     "                        if let Some(node) = node.upgrade() {\n                            node.make_stale();\n                        }\n                        for (n, _) in nodes.values() {\n                            if let Some(n) = n.upgrade() {\n                                n.make_stale();\n                            }\n                        }\n                        nodes"),
     # ---- C18
     ("c18-equal-consumes-a-only", "C18", "C18.DTAB-merge-with", "incremental-map/src/symmetric_fold.rs",
      "            Ordering::Equal => self\n                .a\n                .next()\n                .zip(self.b.next())\n                .map(|(a, b)| MergeElement::Both(a, b)),",
